@@ -124,10 +124,12 @@ def run_unit(unit, workdir):
         st = "verified"
         failed = []
         for d in by_fn.get(id(i), []):
-            if i.unproved_from_line is not None and d.kind in ("refuted", "undecided"):
+            if i.unproved_regions and d.kind in ("refuted", "undecided"):
                 prim = [l[0] for l in d.lines if l[3]] or [l[0] for l in d.lines]
-                if prim and all(i.unproved_from_line <= l <= i.unproved_to_line for l in prim if i.line_start <= l <= i.line_end):
-                    res.setdefault("unproved", []).append({"function": i.name, "reason": i.unproved_reason,
+                inside = [l for l in prim if i.line_start <= l <= i.line_end]
+                reg = [r for r in i.unproved_regions if inside and all(r[0] <= l <= r[1] for l in inside)]
+                if reg:
+                    res.setdefault("unproved", []).append({"function": i.name, "reason": reg[0][2],
                                                            "verus_message": d.message.split("\n")[0]})
                     continue
             kind = d.kind
